@@ -104,10 +104,10 @@ def check_client_arguments_not_dropped(ctx):
     t = ctx.src.tree(PIE)
     cls = get_class(t, 'ProxyKmipClient')
     n_inst = 0
-    for name in sorted(methods(cls)):
+    from ..inline import flat_methods
+    for name, fn in sorted(flat_methods(cls)[0].items()):
         if name.startswith('__'):
             continue
-        fn = get_method(cls, name)
         ps = params(fn)
         if not ps:
             continue
@@ -180,6 +180,55 @@ def check_big_integer_columns(ctx, rule='C05.R13', tail=''):
             ctx.check(not fixed, rule, '%s.%s|fixed-width column for a Big Integer' % (cls.name, fld), '%s:%s %s' % (PIEOBJ, a.lineno, cls.name),
                       'column type %s holds any integer' % types, '%s.%s is a %s column, but the field is a KMIP Big Integer on the wire (%s:%s): a value of more than 63 bits cannot be stored' % (cls.name, fld, fixed[0] if fixed else '?', big[fld][0], big[fld][1]))
     ctx.count('columns_of_big_integer_fields', n_cols, 1)
+
+
+def fold_usage_mask_type(ctx, st, um):
+    """UsageMaskType folded over the real member values: bind(list of members) is the OR of their values (duplicates and order do not matter, an empty
+    list is 0) and result(integer) is the list of the members whose bit is set, in definition order, for every single bit, sample unions, all bits,
+    0 and None.  Returns (bind ok, result ok, text) or None when the converters leave what can be folded."""
+    import itertools
+    from ..fold import Folder, Unfoldable, Raised, Enum
+    vals = {k: v for k, v in enum_table(ctx.src, 'CryptographicUsageMask').items() if isinstance(v, int)}
+    if len(vals) < 8:
+        return None
+    names = list(vals)
+    ub, ur = get_method(um, 'process_bind_param'), get_method(um, 'process_result_value')
+
+    def folder():
+        f = Folder(steps=60000)
+        f.module = st
+        f.enum_tables = {'CryptographicUsageMask': names}
+        f.enum_values = {'CryptographicUsageMask': vals}
+        return f
+    samples = [[]] + [[n] for n in names] + [list(c) for c in itertools.combinations(names[:6], 2)] + [names, names[::-1], [names[0], names[0]], names[3:9]]
+    okb = okr = True
+    why = ''
+    n = 0
+    try:
+        for s_ in samples:
+            f = folder()
+            got = f.call_method(ub, {'__attrs__': ()}, [[Enum('CryptographicUsageMask', x) for x in s_], None], {})
+            want = 0
+            for x in s_:
+                want |= vals[x]
+            n += 1
+            if got != want:
+                okb, why = False, 'bind of %s stores %r, the OR of the values is %r' % (s_[:4], got, want)
+        ints = [None, 0] + [vals[x] for x in names] + [vals[names[0]] | vals[names[5]], sum(set(vals.values())), vals[names[2]] | vals[names[3]] | vals[names[-1]]]
+        for i_ in ints:
+            f = folder()
+            got = f.call_method(ur, {'__attrs__': ()}, [i_, None], {})
+            want = [x for x in names if i_ and (vals[x] & i_)]
+            n += 1
+            if not isinstance(got, list) or [getattr(g_, 'name', None) for g_ in got] != want:
+                okr, why = False, 'the stored integer %r decodes to %s, the members with a bit set are %s' % (i_, [getattr(g_, 'name', g_) for g_ in (got if isinstance(got, (list, tuple)) else [got])][:5], want[:5])
+    except Raised as ex:
+        return (False, False, 'the converter raises %s' % ex.name)
+    except Unfoldable as ex:
+        ctx.note('C05.R3: UsageMaskType is not foldable (%s); shape rule used' % ex)
+        return None
+    ctx.count('usage_mask_conversions_folded', n)
+    return okb, okr, why or 'folded over %d lists / integers with the %d real member values' % (n, len(names))
 
 def run(ctx):
     src = ctx.src
@@ -529,9 +578,20 @@ def run(ctx):
             if isinstance(a_, ast.Assign) and any(isinstance(tg, ast.Name) and tg.id == lv_ for tg in a_.targets):
                 if not ((isinstance(a_.value, ast.Call) and call_name(a_.value) == 'list' and not a_.value.args) or (isinstance(a_.value, ast.List) and not a_.value.elts)):
                     exact = False
-    ctx.check(exact, 'C05.R3', 'UsageMaskType.process_result_value|exactly-the-stored-bits', '%s:%s UsageMaskType.process_result_value' % (SQLT, ur.lineno),
-              'returns exactly the members whose bit is set in the stored integer', 'the decoded usage mask is not exactly the set of members whose bit is set in the stored integer (another return value, an unguarded append, or a pre-filled list): the mask reported and enforced differs from the one stored')
-    ctx.check(okb and okr, 'C05.R3', 'UsageMaskType|or-and-enumerate', '%s:%s UsageMaskType' % (SQLT, um.lineno), 'bind ORs member values; result enumerates CryptographicUsageMask with &', 'the mask decorator does not OR on bind / enumerate the same enum on result')
+    folded = fold_usage_mask_type(ctx, st, um)
+    if folded is not None:
+        okf_b, okf_r, whyf = folded
+        exact = okf_r
+        okb = okr = okf_b and okf_r
+        ctx.check(okf_r, 'C05.R3', 'UsageMaskType.process_result_value|exactly-the-stored-bits', '%s:%s UsageMaskType.process_result_value' % (SQLT, ur.lineno),
+                  'returns exactly the members whose bit is set in the stored integer (%s)' % whyf, 'the decoded usage mask is not exactly the set of members whose bit is set in the stored integer: %s' % whyf)
+        ctx.check(okf_b, 'C05.R3', 'UsageMaskType|or-and-enumerate', '%s:%s UsageMaskType' % (SQLT, um.lineno), 'bind ORs member values; result enumerates CryptographicUsageMask with & (%s)' % whyf,
+                  'the mask decorator does not store the OR of the member values: %s' % whyf)
+    else:
+        ctx.check(exact, 'C05.R3', 'UsageMaskType.process_result_value|exactly-the-stored-bits', '%s:%s UsageMaskType.process_result_value' % (SQLT, ur.lineno),
+                  'returns exactly the members whose bit is set in the stored integer', 'the decoded usage mask is not exactly the set of members whose bit is set in the stored integer (another return value, an unguarded append, or a pre-filled list): the mask reported and enforced differs from the one stored')
+        ctx.check(okb and okr, 'C05.R3', 'UsageMaskType|or-and-enumerate', '%s:%s UsageMaskType' % (SQLT, um.lineno), 'bind ORs member values; result enumerates CryptographicUsageMask with &', 'the mask decorator does not OR on bind / enumerate the same enum on result')
+
 
     # ---------------- R4 attribute maps agree
     gf = getter_fields(m)
